@@ -326,8 +326,9 @@ func vazRandom(rng *rand.Rand, n int) []byte {
 	return b[:n]
 }
 
-func TestVerifC03(t *testing.T) {
-	r := hlib.New("C03")
+func vazMain(t *testing.T, id string, only ...string) {
+	r := hlib.New(id)
+	r.Only = only
 	defer r.Done(t)
 	rng := rand.New(rand.NewSource(r.Seed))
 	thorough := r.Tier == "thorough"
@@ -497,4 +498,17 @@ func TestVerifC03(t *testing.T) {
 		}
 	}
 	flush()
+}
+
+func TestVerifC03(t *testing.T) { vazMain(t, "C03") }
+
+// The same cases reported under the other properties they serve (only the named checks count).
+func TestVerifC10Aztec(t *testing.T) {
+	vazMain(t, "C10", "panic", "result-shape", "rejects-representable", "accepts-illegal-layers", "explicit-fits-auto-fails", "explicit-same-rejected", "larger-size-rejected", "input-modified")
+}
+func TestVerifC12Aztec(t *testing.T) {
+	vazMain(t, "C12", "ecc-percentage", "ecc-none", "reference-reader")
+}
+func TestVerifC13Aztec(t *testing.T) {
+	vazMain(t, "C13", "smaller-size-available")
 }
